@@ -43,32 +43,58 @@ class Symbolizer:
         return name
 
 
-def fanout(exe, seed, total, tier, outdir, budget_s, nworkers=None, extra=()):
-    """run `exe worker seed first count tier outdir budget` on nworkers processes; yield parsed lines"""
+def fanout(exe, seed, total, tier, outdir, budget_s, nworkers=None, extra=(), chunk=None):
+    """run `exe worker seed first count tier outdir budget` on nworkers processes; yield parsed lines.
+    With several executables (flavours) and `chunk` given, the index range is cut into chunks of that many runs and chunk c is run by
+    executable (c + c // 16) % len(exes): the flavour is then not tied to a residue class of the chunk number (the engines' strata are
+    residue classes of idx // chunk, and a fixed worker -> flavour map had left whole strata to one flavour)."""
     nworkers = nworkers or NWORKERS
     exes = exe if isinstance(exe, (list, tuple)) else [exe]
     os.makedirs(outdir, exist_ok=True)
-    per = (total + nworkers - 1) // nworkers
-    procs = []
-    for w in range(nworkers):
-        first = w * per
-        cnt = min(per, total - first)
-        if cnt <= 0:
-            break
-        log = open(os.path.join(outdir, "worker-%d.out" % w), "w")
-        p = subprocess.Popen([exes[w % len(exes)], "worker", str(seed), str(first), str(cnt), tier, outdir, str(budget_s)] + list(extra),
-                             stdout=log, stderr=subprocess.STDOUT)
-        procs.append((w, first, cnt, p, log))
+    jobs = []
+    if chunk and len(exes) > 1:
+        nch = (total + chunk - 1) // chunk
+        for ci in range(nch):
+            first = ci * chunk
+            jobs.append((ci, first, min(chunk, total - first), exes[(ci + ci // 16) % len(exes)]))
+    else:
+        per = (total + nworkers - 1) // nworkers
+        for w in range(nworkers):
+            first = w * per
+            cnt = min(per, total - first)
+            if cnt > 0:
+                jobs.append((w, first, cnt, exes[w % len(exes)]))
     lines, crashes = [], []
-    for w, first, cnt, p, log in procs:
-        rc = p.wait()
-        log.close()
-        with open(os.path.join(outdir, "worker-%d.out" % w)) as f:
-            wl = [l.rstrip("\n") for l in f]
-        lines += [(w, l) for l in wl]
-        if rc != 0:
-            crashes.append(dict(worker=w, exe=exes[w % len(exes)], first=first, count=cnt, rc=rc, tail=wl[-30:],
-                                cur=os.path.join(outdir, "cur-%d.prog" % first)))
+    running = []
+
+    def reap(block):
+        nonlocal running
+        still = []
+        for (w, first, cnt, ex, p, log) in running:
+            rc = p.wait() if block else p.poll()
+            if rc is None:
+                still.append((w, first, cnt, ex, p, log))
+                continue
+            log.close()
+            with open(os.path.join(outdir, "worker-%d.out" % w)) as f:
+                wl = [l.rstrip("\n") for l in f]
+            lines.extend((w, l) for l in wl)
+            if rc != 0:
+                crashes.append(dict(worker=w, exe=ex, first=first, count=cnt, rc=rc, tail=wl[-30:], cur=os.path.join(outdir, "cur-%d.prog" % first)))
+        running = still
+
+    per_budget = budget_s  # a safety net per process, not a schedule: a chunk normally needs a small fraction of it
+    for (w, first, cnt, ex) in jobs:
+        while len(running) >= nworkers:
+            reap(False)
+            if len(running) >= nworkers:
+                time.sleep(0.01)
+        log = open(os.path.join(outdir, "worker-%d.out" % w), "w")
+        p = subprocess.Popen([ex, "worker", str(seed), str(first), str(cnt), tier, outdir, str(per_budget)] + list(extra), stdout=log, stderr=subprocess.STDOUT)
+        running.append((w, first, cnt, ex, p, log))
+    while running:
+        reap(True)
+    lines.sort(key=lambda t: t[0])
     return lines, crashes
 
 
